@@ -148,6 +148,17 @@ pub fn compare_pair(
             );
             return (a, b);
         }
+        if comp::cast_check_removed(&a, &b) {
+            rep.count("known:optimiser-cancels-data-cast-check");
+            comp::fail_shared(
+                rep,
+                &format!("c02:{}", comp::CAST_KEY_SUFFIX),
+                "the optimiser cancels <x>Data(un<X>Data d): the unoptimised program fails in the un<X>Data shape check (what `expect n: T = d` compiles to), the optimised one returns",
+                replay.clone(),
+                json!({"pre": format!("{:?}", a).chars().take(200).collect::<String>(), "post": short(&cb), "attribution": why, "case": key}),
+            );
+            return (a, b);
+        }
         rep.fail(
             &format!("{}:optimiser-changes-result", key),
             "pre- and post-optimisation programs evaluate differently",
